@@ -1710,12 +1710,17 @@ func genParseMapCase(r *Rng, st *Stats) string {
 		nsec = 2 + r.Intn(2)
 	}
 	var secs []sec
+	prevEndLine, prevEndCol := 0, 0
 	for k := 0; k < nsec; k++ {
 		s := sec{sl: 1 + r.Intn(3), nl: r.Intn(3)}
 		if nsec > 1 || r.Chance(15) {
 			s.lo, s.co = r.Intn(3)+k, r.Intn(6)
 			if r.Chance(15) {
 				s.lo = r.Intn(2) // may start before the previous section ended
+			}
+			if k > 0 && r.Chance(30) {
+				// on the line where the previous section ended, at or before / after its last column
+				s.lo, s.co = prevEndLine, r.Intn(prevEndCol+3)
 			}
 		}
 		// mostly well-formed mappings; sometimes negative column deltas, repeated
@@ -1776,6 +1781,7 @@ func genParseMapCase(r *Rng, st *Stats) string {
 			b = append(b, "!~ é"[r.Intn(4)])
 		}
 		s.raw = string(b)
+		prevEndLine, prevEndCol = s.lo+strings.Count(s.raw, ";"), gcol
 		secs = append(secs, s)
 	}
 	mapJSON := func(s sec) string {
